@@ -450,7 +450,64 @@ class Machine(RuleBasedStateMachine):
         self.do("flush")
 
 
-LEGS = [Leg("history", chk_history, quick=4000, thorough=60000, doc="rule-based state machine over message histories; replay re-executes the plain step list")]
-LEGS[0].machine = Machine
-LEGS[0].steps_quick = 60
-LEGS[0].steps_thorough = 120
+def enum_real(ctx):
+    for k, batch_s in enumerate([1, 2, 5, 17]):
+        if ctx.mine(k):
+            yield {"batch_seconds": batch_s}
+
+
+def chk_real(case, note):
+    """the repository's real reception log (2000 DF17 frames over ~3 min, 10 000 Comm-B replies) replayed through two Decode instances
+    (upper / lower case): no exception, listing rule, no record for an address never seen in ADS-B, case independence."""
+    from vlib import corpus
+    rows = corpus.adsb_timed()
+    t0 = rows[0][0]
+    cb = [(t0 + (i % 180), m) for i, (m, _a) in enumerate(corpus.commb(20)[:1500] + corpus.commb(21)[:1500])]  # Comm-B log re-timed onto the ADS-B interval
+    cb.sort()
+    dec = (Decode(latlon=(52.0, 4.4)), Decode(latlon=(52.0, 4.4)))
+    last, ever = {}, set()
+    step = case["batch_seconds"]
+    t = t0
+    n = 0
+    while t <= rows[-1][0] + 70:
+        a = [(x[0], x[1]) for x in rows if t <= x[0] < t + step]
+        c = [(x[0], x[1]) for x in cb if t <= x[0] < t + step]
+        tnow = t + step
+        for k, d in enumerate(dec):
+            f = (lambda s_: s_) if k == 0 else (lambda s_: s_.lower())
+            r = call(d.process_raw, [x[0] for x in a], [f(x[1]) for x in a], [x[0] for x in c], [f(x[1]) for x in c], tnow)
+            if r[0] != "ok":
+                return "process_raw raised %r on real traffic at t=%r (batch of %d ADS-B, %d Comm-B)" % (r[1:], t, len(a), len(c))
+        for ts, m in a:
+            ad = m[2:8].upper()
+            ever.add(ad)
+            last[ad] = max(last.get(ad, ts), ts)
+        keys = set(dec[0].acs.keys())
+        for ts, m in c:
+            ad = pms.icao(m)
+            if ad in keys or ad in {x[1][2:8].upper() for x in a}:
+                if ad in last:
+                    last[ad] = max(last[ad], ts)
+        for k_ in keys:
+            if k_ not in ever:
+                return "table lists %r, never seen in an ADS-B message (real traffic)" % k_
+        for ad, th in last.items():
+            if tnow - th <= 59 and ad not in keys and tnow - th >= 0:
+                return "aircraft %s heard %.1f s ago is not listed at tnow=%r (real traffic)" % (ad, tnow - th, tnow)
+            if tnow - th > 61 and ad in keys:
+                return "aircraft %s silent for %.1f s is still listed at tnow=%r (real traffic)" % (ad, tnow - th, tnow)
+        if _norm(dec[0].acs) != _norm(dec[1].acs):
+            return "tables differ between upper- and lower-case real traffic at tnow=%r" % tnow
+        t += step
+        n += 1
+    note.evals = n
+    note.cls("real-traffic")
+    note.nt(True)
+    return None
+
+
+LEGS = [Leg("real_traffic", chk_real, enum=enum_real, exhaustive=False, doc="the repository's reception log replayed in batches of 1/2/5/17 s"),
+        Leg("history", chk_history, quick=4000, thorough=60000, doc="rule-based state machine over message histories; replay re-executes the plain step list")]
+LEGS[1].machine = Machine
+LEGS[1].steps_quick = 60
+LEGS[1].steps_thorough = 120
